@@ -30,7 +30,10 @@ MANIFEST = {
     "text": "Every member of {isolated atom of each of the 113 elements mdtraj knows from the radii table; two "
             "spheres (3 element pairs x axis directions) at 12 separations from concentric-ish to apart; three "
             "spheres in 6 arrangements; a 5-atom cluster; a hand-built 13-atom dipeptide; a 32-atom fragment of "
-            "tests/data/2EQQ.pdb (4 NMR models)} x n_sphere_points {1,2,10,24,100,960} x probe {0,0.14,0.3} x "
+            "tests/data/2EQQ.pdb (4 NMR models); 'late big atom' residue-mode structures ([H,I], [H,H,S,I] in one residue, two "
+            "residues of [H,H,H,Br]: the largest-radius element only after the first n_residues atoms) with the small-big pair "
+            "separated along each signed coordinate axis (+ one generic direction) by 2r_s+2p+f(r_b-r_s), f in "
+            "{-0.1,.05,.25,.5,.75,.95,1.1} per probe, single-frame windows} x n_sphere_points {1,2,10,24,100,960} x probe {0,0.14,0.3} x "
             "change_radii {None,{C:0.2},{C:0.26}} x mode {atom,residue} x atom_indices (ALL subsets incl. empty and None for "
             "<= 5 atoms, a 10-entry menu above) x every contiguous window of 1..3 frames (quick: 2 axis directions; "
             "thorough: 6 directions, the extra pairs Fr-Li and S-H, and 3 rotated copies of every multi-atom structure).  Each call of md.shrake_rupley is compared with an independent "
